@@ -189,6 +189,10 @@ func c04Generate(id int, seed uint64, region string, steps int) *c04hist {
 			h.Modelled = false
 		}
 	}
+	if region != "" && !g.regionHit {
+		// no operation of the region could be placed: the history lies in the main region
+		h.Region = ""
+	}
 	h.Expect = out
 	h.Grow = g.st.Grow
 	h.Src = c04Program(g.fns, h.Decls, h.Ops)
@@ -373,6 +377,7 @@ func runC04(args []string) error {
 	// ---------------------------------------------------------------- compare, write cases
 	distinct := distinctSet{}
 	var cases []string
+	shrunk := 0
 	for _, h := range hs {
 		h.ref = refs[h.ID]
 		sm.Evaluations++
@@ -423,7 +428,15 @@ func runC04(args []string) error {
 			}
 		}
 		if h.impl.String() != h.ref.String() {
-			sm.RefMismatches = append(sm.RefMismatches, refMismatch{ID: h.ID, Region: h.Region, Input: in,
+			note := ""
+			if h.Region == "" && shrunk < 3 {
+				// delete operations while yaegi still differs (delta debugging on the operation list)
+				shrunk++
+				if small := c04Shrink(h.Ops); len(small) < len(h.Ops) {
+					note = "shrunk operation list:\n" + c04OpsText(small)
+				}
+			}
+			sm.RefMismatches = append(sm.RefMismatches, refMismatch{ID: h.ID, Region: h.Region, Input: in, Note: note,
 				Impl: c04FirstDiff(h.impl, h.ref, true), Ref: c04FirstDiff(h.impl, h.ref, false)})
 			sm.count("ref-mismatch:" + h.Region)
 		}
@@ -441,11 +454,10 @@ func runC04(args []string) error {
 	}
 
 	hdr := "From Verif Require Import Mem.GoStore Mem.ReflectModel Mem.Cases.\n"
-	nfiles := 16
-	if len(cases) < nfiles {
-		nfiles = 1
+	per := 15 // cases per file: one coqc each, 16 at a time
+	if *tier == "thorough" {
+		per = 100
 	}
-	per := (len(cases) + nfiles - 1) / nfiles
 	for k := 0; k*per < len(cases); k++ {
 		lo, hi := k*per, (k+1)*per
 		if hi > len(cases) {
@@ -699,4 +711,14 @@ func c04GoRef(hs []*c04hist, timeout time.Duration) (map[int]outcome, error) {
 		mu.Unlock()
 	})
 	return res, nil
+}
+
+func c04OpsText(ops []*c04op) string {
+	var b strings.Builder
+	for _, o := range ops {
+		for _, l := range o.goLines("") {
+			b.WriteString(l + "\n")
+		}
+	}
+	return b.String()
 }
